@@ -794,12 +794,15 @@ def run(chk):
                        "with = ?= *= += (INT / STRING / keyword right-hand sides, and a match rule that is itself named `sep`), auto_init_attributes on/off; per grammar 3-4 inputs derived from "
                        "the body (values distinct, 0 and '' occurring as first values) plus 2 token-level mutations; the multiplicities, the "
                        "assignment events of the real parse tree, the attribute values or the error are compared with Model/Mult.v; "
+                       "for a sample of the grammars the live parser model is dumped and `den` (structure of the rule node = the body) and the "
+                       "assignment nodes of the Peg.v interpreter's parse are compared with the real parse tree; "
                        "non-trivial = some attribute is assigned at least twice in the body; distinct by (grammar, auto_init, inputs)"
                        + ("; thorough adds every body of 2-5 nodes over two attributes (=, one +=, ?, *, binary sequence/choice, ternary choice) and a sample of 2500 of the 6-node bodies, for the multiplicity table" if chk.thorough else ""))
     chk.assumptions += [
         "translator mult_tr.py (ast shape match of const.py, metamodel.py, lang.py visit_assignment/_update_attr_multiplicities, model.py assignment handler)",
         "the walk is modelled per attribute (set membership and the attribute's mult cell); independence of distinct attributes is validated by the correspondence",
-        "traces: `emits` is the grammar-structure semantics of one rule body; that Arpeggio parse trees of accepted inputs are such traces is validated per case by the weight check (cap2(weight) <= maxcount evaluated on the real trace)",
+        "traces: `emits` is the grammar-structure semantics of one rule body; results of the interpreter model Model/Peg.v (memoization off) are proved to be such traces (C02_parse_result_is_trace); that Model/Peg.v is the real interpreter is validated by correspondence (C19/C01, and here: nodes of the Peg.v parse vs the real parse tree, weight check on the real trace)",
+        "tools/pegdump.py and tools/mmdump.py dump the live parser model and metamodel faithfully (shared, fail closed)",
         "values are INT / STRING / bool; attribute defaults are computed by the harness from the documented rule and are falsy",
     ]
     decide(chk, failures, disagreements)
